@@ -318,4 +318,7 @@ def run(P, R, tier):
     # the table key and the element count hold every id / every number of requests
     rules.narrowing_fields(P, R, 'C10.WID.1', ('modules/iauth_core.c', 'modules/iauth_xquery.c', 'src/set.c'))
     rules.counter_widths(P, R, 'C10.WID.2', recs=('set', 'iauth_request', 'iauth_xquery_service'))
+    # the end of input is only seen by a reader that keeps being woken while bytes are left (round 9)
+    from . import c03 as _c03r
+    _c03r.reader_drains(P, R, 'C10.MPT.4')
     return EXPLANATION, ASSUMPTIONS
